@@ -13,7 +13,7 @@ ns = {}
 exec(open(probe_file).read(), ns)
 PROBES = ns["PROBES"]
 run.SCRATCH = "/tmp/wtpriv/probe-%d" % os.getpid()
-jobs = min(8, len(PROBES))
+jobs = min(int(os.environ.get("PROBE_JOBS", "8")), len(PROBES))
 import queue
 q = queue.Queue()
 for p in PROBES:
